@@ -175,4 +175,18 @@ PROPS["C15"] = dict(
     technique="contract-based deductive verification (Verus on mechanically extracted real bodies, for-loop invariant)",
 )
 
+PROPS["C04"] = dict(
+    level="proof",
+    text="panic-freedom as a by-product of every unit: each Verus unit discharges the body-safety obligations of its function (arithmetic overflow, index bounds, unwrap/expect/unreachable!, callee preconditions, loop termination) and each Kani unit discharges every reachable CBMC built-in check (panics, overflow checks, out-of-bounds, invalid memory) of the code it exercises, for all inputs of its domain",
+    verus=["v_format_radix", "v_crud_vec", "v_closure_runner", "v_op_resolve", "v_nodes", "v_value_error_from", "v_target_ops", "v_read_only"],
+    kani=["c10_int_cmp", "c10_float_cmp", "c10_mixed_eq", "c11_int_arith", "c11_int_rem_class", "c11_int_div_class", "c11_float_add", "c11_float_sub",
+          "c11_float_div_class", "c11_float_rem_class", "c11_mixed_add_sub", "c11_mixed_div_class", "k_abs_int", "k_abs_float", "k_to_int_scalar", "k_to_float_scalar",
+          "k_try_and_table", "k_try_boolean"],
+    kani_quick=["c10_int_cmp", "c11_int_arith", "c11_int_rem_class", "k_abs_int", "k_abs_float", "k_to_int_scalar", "k_to_float_scalar"],
+    trusted=["panic-freedom is claimed only for the functions listed under functions_under_contract, under each unit's stated preconditions (e.g. non-empty blocks, len + |index| < isize::MAX)"],
+    not_covered=["lexer, LALRPOP parser, diagnostics formatter, grok, protobuf and ~180 stdlib functions are UNVERIFIED for panics",
+                 "memory/stack exhaustion (out of scope by the property)", "Kani does not prove termination"],
+    technique="contract-based deductive verification (aggregate of the safety obligations of all Verus and Kani units)",
+)
+
 HOOK_COMMITS = ["8978857", "33091a8"]
